@@ -131,8 +131,9 @@ Print Assumptions C14_abf_union_once_before_repair_refuted.
    or cut inside a file name: PRVis, PLVis), of the peer's state-file rewrites -- as one event or as their
    two halves, hills file restarted (PWStateB) then state file renamed (PWStateA) -- and restarts (with or
    without a new output prefix), and of the reader's exchanges, own state-file writes and restarts.
-   trace_ok true = the peer numbers its own steps sensibly (hills later than the state file in place; state
-   files not earlier than their hills) and performs the two halves in the order of the repaired code.
+   trace_ok true = the peer numbers its own steps sensibly (hills not before the state file in place; state files
+   not earlier than their hills, and later than the previous one unless nothing was deposited in between) and
+   performs the two halves in the order of the repaired code.
    NOTHING is assumed of the reader: it may exchange at any moment, also between the two halves. *)
 
 (* Whatever the interleaving: the hills the reader holds for the peer are a prefix of the peer's deposited
@@ -245,6 +246,12 @@ Example C14_ex_all_walkers : sys_ok 3 ex_sys = true /\
   map (fun rp => cont_of (pair_of (sys_run ex_sys (sys_init 3)) (fst rp) (snd rp))) [(1, 0); (2, 0); (0, 2); (2, 1)]%nat
   = [[H 1; H 3]; [H 1; H 3]; [H 2]; [H 1]].
 Proof. exact ex_sys_ok. Qed.
+
+(* stepZeroData: a hill deposited at the very step of the state file that setup_output has just written *)
+Example C14_ex_meta_step_zero_hill :
+  trace_ok true true true [PSetup 4 false; PDeposit (H 4); PVis 1; RShare] pinit = true /\
+  cont_of (prun true true [PSetup 4 false; PDeposit (H 4); PVis 1; RShare] pinit) = [H 4].
+Proof. vm_compute. auto. Qed.
 
 Example C14_ex_meta_restart : let w := fst (prun true true meta_w2 pinit) in
   w_reg w = true /\ w_sok w = true /\ w_rv w = 2 /\ w_lv w = 2 /\
